@@ -33,6 +33,7 @@ import (
 	"github.com/tikv/client-go/v2/config/retry"
 	"github.com/tikv/client-go/v2/internal/mockstore/mocktikv"
 	"github.com/tikv/client-go/v2/kv"
+	"github.com/tikv/client-go/v2/rawkv"
 	"github.com/tikv/client-go/v2/tikv"
 	"github.com/tikv/client-go/v2/tikvrpc"
 	"github.com/tikv/client-go/v2/util"
@@ -153,7 +154,7 @@ func main() {
 	if seed == 0 {
 		seed = 1
 	}
-	nruns := 60
+	nruns := 80
 	if os.Getenv("VERIF_TIER") == "thorough" {
 		nruns = 600
 	}
@@ -190,13 +191,30 @@ func main() {
 		panic(err)
 	}
 	_ = regionIDs
+	// a second cluster for the raw client (rawkv.sendBatchReq / sendBatchPut: fork of a fork per batch)
+	mvcc2 := mocktikv.MustNewMVCCStore()
+	cluster2 := mocktikv.NewCluster(mvcc2)
+	mocktikv.BootstrapWithMultiRegions(cluster2, splits...)
+	inj2 := &inject{Client: mocktikv.NewRPCClient(cluster2, mvcc2, nil)}
+	raw := rawkv.VerifNewClient(mocktikv.NewPDClient(cluster2), inj2)
+	{
+		var ks, vs [][]byte
+		for reg := 0; reg < nregions; reg++ {
+			for j := 1; j <= 3; j++ {
+				ks, vs = append(ks, key(reg*10+j)), append(vs, []byte("raw"))
+			}
+		}
+		if err := raw.VerifSendBatchPut(retry.NewBackofferWithVars(context.Background(), 40000, nil), ks, vs); err != nil {
+			panic(err)
+		}
+	}
 
 	for run := 0; run < nruns; run++ {
-		site := []string{"batchget", "checksecondaries"}[run%2]
+		site := []string{"batchget", "checksecondaries", "rawbatchget", "rawbatchput"}[run%4]
 		w := 2 + r.Intn(nregions-1) // regions taking part
 		k := 1 + r.Intn(2)
 		ending := "ok"
-		if r.Intn(2) == 0 {
+		if r.Intn(2) == 0 && site != "rawbatchget" { // a body-less RawBatchGet answer is not an error path of the consumer
 			ending = "error"
 		}
 		regs := r.Perm(nregions)[:w]
@@ -206,14 +224,20 @@ func main() {
 			keys = append(keys, key(reg*10+1), key(reg*10+2))
 		}
 		p := &plan{id: run + 1, errsLeft: map[uint64]int{}, delay: 4 * time.Millisecond}
-		if site == "batchget" {
+		cl, in := cluster, inj
+		switch site {
+		case "batchget":
 			p.cmd = tikvrpc.CmdBatchGet
-		} else {
+		case "checksecondaries":
 			p.cmd = tikvrpc.CmdCheckSecondaryLocks
+		case "rawbatchget":
+			p.cmd, cl, in = tikvrpc.CmdRawBatchGet, cluster2, inj2
+		default:
+			p.cmd, cl, in = tikvrpc.CmdRawBatchPut, cluster2, inj2
 		}
 		var rids []uint64
 		for _, reg := range regs {
-			region, _, _, _ := cluster.GetRegionByKey(mocktikv.NewMvccKey(key(reg*10 + 1)))
+			region, _, _, _ := cl.GetRegionByKey(mocktikv.NewMvccKey(key(reg*10 + 1)))
 			rids = append(rids, region.GetId())
 			p.errsLeft[region.GetId()] = k
 		}
@@ -250,11 +274,19 @@ func main() {
 			}
 		}
 		rec := record{Run: run, Site: site, Workers: w, K: k, Ending: ending, Slow: slow, Pre: pre, Before: snap(bo)}
-		inj.mu.Lock()
-		inj.p = p
-		inj.mu.Unlock()
+		in.mu.Lock()
+		in.p = p
+		in.mu.Unlock()
 		var callErr error
-		if site == "batchget" {
+		if site == "rawbatchget" {
+			rec.Values, callErr = raw.VerifSendBatchGet(bo, keys)
+		} else if site == "rawbatchput" {
+			var vs [][]byte
+			for range keys {
+				vs = append(vs, []byte("raw"))
+			}
+			callErr = raw.VerifSendBatchPut(bo, keys, vs)
+		} else if site == "batchget" {
 			ts, err := store.CurrentTimestamp("global")
 			if err != nil {
 				panic(err)
@@ -269,10 +301,10 @@ func main() {
 		if callErr != nil {
 			rec.Err = errors.Cause(callErr).Error()
 		}
-		inj.mu.Lock()
+		in.mu.Lock()
 		rec.Injected, rec.Finals = p.injected, p.finals
-		inj.p = nil
-		inj.mu.Unlock()
+		in.p = nil
+		in.mu.Unlock()
 		cancel()
 		js, _ := json.Marshal(rec)
 		fmt.Fprintf(out, "CS\t%s\n", js)
